@@ -74,6 +74,9 @@ def items(tier, seed):
             for disk in (False, True):
                 for first in range(4):
                     its.append({"kind": "H", "opt": optname, "overwrite": overwrite, "disk": disk, "first": first, "tier": tier})
+                    if optname == "hyper" and overwrite is not True and first < 2:
+                        # a non-default objective: the hit tree must score what was stored
+                        its.append({"kind": "H", "opt": optname, "overwrite": overwrite, "disk": disk, "first": first, "tier": tier, "minimize": "size"})
     return its
 
 
@@ -250,7 +253,7 @@ POOL = [
 ]
 
 
-def make_opt(optname, directory, overwrite, cache_only=False, seed=None):
+def make_opt(optname, directory, overwrite, cache_only=False, seed=None, minimize=None):
     if optname == "rgreedy":
         from cotengra.pathfinders.path_basic import ReusableRandomGreedyOptimizer
 
@@ -258,7 +261,7 @@ def make_opt(optname, directory, overwrite, cache_only=False, seed=None):
     from cotengra.hyperoptimizers.hyper import ReusableHyperOptimizer
 
     return ReusableHyperOptimizer(directory=directory, max_repeats=2, methods=["greedy"], optlib="random", parallel=False, progbar=False, slicing_opts={"target_size": 8},
-                                  overwrite=overwrite, cache_only=cache_only)
+                                  overwrite=overwrite, cache_only=cache_only, **({"minimize": minimize} if minimize else {}))
 
 
 def run_H(item, rec):
@@ -270,7 +273,7 @@ def run_H(item, rec):
     orig_g = PB.GumbelBatchedGenerator
     work = tempfile.mkdtemp(prefix="verif_c14_")
     counter = [0]
-    case0 = dict(kind="H", opt=optname, overwrite=overwrite, disk=disk)
+    case0 = dict(kind="H", opt=optname, overwrite=overwrite, disk=disk, minimize=item.get("minimize"))
     try:
 
         def harness(ctx):
@@ -279,7 +282,7 @@ def run_H(item, rec):
             counter[0] += 1
             d = os.path.join(work, f"d{counter[0]}") if disk else None
             rng = stubs.SymRng("rg", uniform_mode="grid") if optname == "rgreedy" else None
-            opt = make_opt(optname, d, overwrite, seed=rng)
+            opt = make_opt(optname, d, overwrite, seed=rng, minimize=item.get("minimize"))
             seq = []
             stored_scores = {}
             for k in range(K):
@@ -289,7 +292,7 @@ def run_H(item, rec):
                 seq.append([qi, int(fresh), mode])
                 inputs, output, size = POOL[qi]
                 if fresh:
-                    opt = make_opt(optname, d, overwrite, seed=rng)  # a later process: empty memory cache
+                    opt = make_opt(optname, d, overwrite, seed=rng, minimize=item.get("minimize"))  # a later process: empty memory cache
                 h, missing_before = opt.hash_query(inputs, output, size)
                 key = h if not isinstance(h, tuple) else "/".join(h)
                 calls = {"n": 0}
@@ -338,6 +341,9 @@ def run_H(item, rec):
                     if tree is not None:
                         if tuple(tree.inputs) != tuple(inputs) or tuple(tree.output) != tuple(output) or tree.N != n or not tree.is_complete():
                             bad.append("tree does not belong to the query")
+                        if item.get("minimize") and abs(tree.get_score() - con["score"]) > 1e-4:
+                            # the tree carries the objective the optimizer was built with: its own score is the stored one
+                            bad.append(f"returned tree scores {tree.get_score():.6f} (objective {tree.get_default_objective()!r}) but the stored score is {con['score']:.6f}")
                         if tuple(tree.sliced_inds) != tuple(con["sliced_inds"]):
                             bad.append(f"sliced indices {tuple(tree.sliced_inds)} differ from stored {tuple(con['sliced_inds'])}")
                     if not missing_before and overwrite is False and calls["n"] and mode != 2:
@@ -411,12 +417,12 @@ def replay(v):
         work = tempfile.mkdtemp(prefix="verif_c14_replay_")
         try:
             d = os.path.join(work, "d") if case["disk"] else None
-            opt = make_opt(case["opt"], d, case["overwrite"], seed=seed)
+            opt = make_opt(case["opt"], d, case["overwrite"], seed=seed, minimize=case.get("minimize"))
             stored = {}
             for qi, fresh, mode in case["seq"]:
                 inputs, output, size = POOL[qi]
                 if fresh:
-                    opt = make_opt(case["opt"], d, case["overwrite"], seed=seed + 100)
+                    opt = make_opt(case["opt"], d, case["overwrite"], seed=seed + 100, minimize=case.get("minimize"))
                 h, missing = opt.hash_query(inputs, output, size)
                 try:
                     if mode == 2:
@@ -440,6 +446,9 @@ def replay(v):
                         return True, f"sequence {case['seq']}: query {qi} answered with a tree of another contraction (N={tree.N})"
                     if tuple(tree.sliced_inds) != tuple(con["sliced_inds"]):
                         return True, f"sequence {case['seq']}: sliced indices differ from the stored ones"
+                    if case.get("minimize") and abs(tree.get_score() - con["score"]) > 1e-4:
+                        return True, (f"optimizer built with minimize={case['minimize']!r}, sequence {case['seq']}: the returned tree scores {tree.get_score():.6f} "
+                                      f"(objective {tree.get_default_objective()!r}) but the stored score is {con['score']:.6f}")
                     key = str(h)
                     if key in stored and case["overwrite"] == "improved" and con["score"] > stored[key] + 1e-12:
                         return True, f"overwrite='improved' made the stored score worse ({stored[key]} -> {con['score']})"
